@@ -12,6 +12,7 @@ tvars == <<l, gvd, rng, memo, bad>>
 Key(f, args, g, r) == IF f \in Deterministic THEN <<f, args, g, 0>> ELSE <<f, args, g, r>>
 Init == l = 1 /\ gvd = Trace[1].gvBefore /\ rng = Trace[1].rngBefore /\ memo = <<>> /\ bad = {}
 Clauses(e) ==
+  IF e.kind = "boundary" THEN {} ELSE         \* another interpreter / explicit set-up: world state is taken from the event
   (IF e.gvBefore # gvd THEN {"gv-changed-between-calls"} ELSE {}) \cup
   (IF e.rngBefore # rng THEN {"rng-changed-between-calls"} ELSE {}) \cup
   (IF e.kind = "invoke" THEN
